@@ -219,7 +219,9 @@ class HMerge(common.Harness):
         if kind == "exc":
             return [self.check("C15:merge:no_exception:" + type(out).__name__, False, self.witness)]
         (m1, n1, h1, s1), (m2, n2, h2, s2) = out
+        union = {id(e) for e in self.cfg["a_exact"]} | {id(e) for e in self.cfg["b_exact"]}
         fs = [
+            self.check("C16:merged_candidate_editions_are_the_union_of_both_tokens", z3.BoolVal((not m1) or s1 == union), self.witness),
             self.check("C15:merged_edition_set_independent_of_order", z3.BoolVal(m1 == m2 and s1 == s2), self.witness),
             self.check("C15:nominative_decision_independent_of_order", z3.BoolVal(n1 == n2), self.witness),
             self.check("C15:value_hash_independent_of_order", z3.BoolVal(bool(h1 == h2)), self.witness),
